@@ -85,6 +85,21 @@ func corrC05(c *corrCtx) {
 			c05Case(c, "png/walk", "png", data, d.w, d.h, 8, small)
 		}
 	}
+	// PNG with an iCCP chunk before IDAT: every boundary of the profile-name length (1..79 legal)
+	for _, nl := range []int{1, 2, 39, 40, 77, 78, 79} {
+		d := randPngDesc(r, true, randProfilePayload(r, 1+r.intn(600)))
+		name := make([]byte, nl)
+		for k := range name {
+			name[k] = byte(33 + r.intn(90))
+		}
+		d.iccName = string(name)
+		if d.ctype == 3 {
+			d.pre = append([]pngChunk{{"PLTE", []byte{0, 0, 0, 255, 255, 255}}}, d.pre...)
+		}
+		data, _ := d.build()
+		small := uint64(d.w)*uint64(d.h)*8 < 1<<31
+		c05Case(c, "png/iccp-name", "png", data, d.w, d.h, uint32(d.depth), small)
+	}
 	for i := 0; i < n; i++ {
 		withICC := r.intn(3) == 0
 		d := randPngDesc(r, withICC, randProfilePayload(r, 1+r.intn(3000)))
